@@ -370,14 +370,19 @@ EXTRA_TEXT = {
            'sub-workflow (root and child); K=1 in quick; every policy '
            'program of C08 (retry matrix, waits, timeout races, fail-on, '
            'task kinds x policies, policy pairs) paused at every point and '
-           'resumed at every later point with the policy oracles active.',
+           'resumed at every later point with the policy oracles active; '
+           'every pause / resume also with its first commit refused as a '
+           'deadlock victim (/dbretry).',
     'C11': ' The same stop repeated on the finished execution; results '
            'that arrive after the stop and cannot be handled; every policy '
            'program of C08 stopped at every point (wake-ups of delayed '
            'tasks, wait-after completions, timeout timers, remaining '
-           'with-items iterations as late events).',
+           'with-items iterations as late events); every stop command '
+           'also with its first commit refused as a deadlock victim and '
+           'the transaction retried (/dbretry).',
     'C12': ' Reruns inside the children of a with-items task, without and '
-           'with a concurrency limit.',
+           'with a concurrency limit; every rerun / skip also with its '
+           'first commit refused as a deadlock victim (/dbretry).',
     'C14': ' Workbook presentation variants (a comment / blank line at '
            'every position x indentation, trailing blanks, every block '
            'scalar line replaced by comment-, key- and list-looking text): '
